@@ -23,8 +23,20 @@ def possibly_equal(sim, st, x, y):
     return "=" in rel_allowed(sim, st, x, y)
 
 
+_UNIT_LEAVES = [None]
+
+
 def sym_unit(name):
-    return (Sym(name + ".millimeter_exp"), Sym(name + ".second_exp"))
+    """the two exponent symbols of a symbolic Unit called `name` (leaf names follow the type's own layout)"""
+    if _UNIT_LEAVES[0] is None:
+        try:
+            p_ = load_config("K1")
+            _UNIT_LEAVES[0] = Q.unit_leaf_names(S.Sim(p_), p_) or ["millimeter_exp", "second_exp"]
+        except Exception:
+            _UNIT_LEAVES[0] = ["millimeter_exp", "second_exp"]
+        if len(_UNIT_LEAVES[0]) != 2:
+            _UNIT_LEAVES[0] = ["millimeter_exp", "second_exp"]
+    return (Sym(name + "." + _UNIT_LEAVES[0][0]), Sym(name + "." + _UNIT_LEAVES[0][1]))
 
 
 def check_constants(chk, prog, sim):
@@ -137,9 +149,9 @@ def check_unit_like(chk, sim, imp, tr, fn, is_quantity):
                 chk.violation("C01.value", key, "%s: numeric part is %r, expected the f32 operator on the raw values in operand order %r" % (imp["trait_ref"], val, expv),
                               fn=fn["pretty"], file=loc(fn["span"]))
                 ok = False
-            got = (unit.fields[0], unit.fields[1]) if isinstance(unit, Struct) and len(unit.fields) == 2 else None
+            got = Q.unit_exps(sim, stl, unit)
         else:
-            got = (res.fields[0], res.fields[1]) if isinstance(res, Struct) and len(res.fields) == 2 else None
+            got = Q.unit_exps(sim, stl, res)
         exp = expected_unit(tr, ua, ub)
         if got is None or got[0] != exp[0] or got[1] != exp[1]:
             # for additive ops a == b on this path, so either operand's exponents are acceptable
